@@ -127,3 +127,56 @@ def finish_pipeline(d, conv, nts, strands_file=True):
         return {"outcome": "failed", "error": "exit " + err.getvalue()[-300:]}
     except Exception as e:
         return {"outcome": "failed", "error": "%s: %s" % (type(e).__name__, e)}
+
+def pipeline(files, base, args=(), includes=None, seed=0, struct_orient=False):
+    """compile -> designer arrays -> fill -> process_results -> .mfe -> finish, all in one kept directory.
+    Returns dict with dir, ctr0, pil, arrays, nts, mfe, seqs, strands (or outcome != ok and stage)."""
+    import random
+    r = compile_files(files, base, args=args, includes=includes, keep=True)
+    d = r["dir"]
+    out = {"dir": d, "ctr0": r["ctr0"], "stage": "compile", "outcome": r["outcome"], "error": r.get("error")}
+    if r["outcome"] != "ok":
+        return out
+    out["pil"] = r["text"]
+    a, conv = designer_arrays(os.path.join(d, "out.pil"), struct_orient)
+    out["arrays"] = a
+    if a["outcome"] != "ok":
+        out.update(stage="arrays", outcome="rejected", error=a.get("error")); return out
+    nts = fill_design(a["eq"], a["wc"], a["st"], random.Random(seed))
+    out["nts"] = nts
+    f = finish_pipeline(d, conv, nts)
+    out.update(stage="finish", outcome=f["outcome"], error=f.get("error"))
+    if f["outcome"] == "ok":
+        out.update(mfe=f["mfe"], seqs=f["seqs"], strands=f["strands"])
+    return out
+
+def run_finish(d, mfe_text, tag="x"):
+    """finish against d/out.save with the given design text; returns (outcome, seqs, strands, error)"""
+    import contextlib, io
+    from peppercompiler import finish as F
+    mfe = os.path.join(d, "c_%s.mfe" % tag); seqs = os.path.join(d, "c_%s.seqs" % tag); strands = os.path.join(d, "c_%s.strands" % tag)
+    with open(mfe, "w") as f: f.write(mfe_text)
+    for p in (seqs, strands):
+        if os.path.exists(p): os.remove(p)
+    err = io.StringIO()
+    try:
+        with contextlib.redirect_stdout(err), contextlib.redirect_stderr(err):
+            F.finish(os.path.join(d, "out.save"), mfe, seqs, strands, False, False, 24, 100000, 25.0, 1.0, False, 10.0)
+        return ("ok", open(seqs).read(), open(strands).read(), None)
+    except SystemExit:
+        return ("error", None, None, "exit " + err.getvalue()[-200:])
+    except BaseException as e:
+        return ("error", None, None, "%s: %s" % (type(e).__name__, str(e)[:200]))
+
+def read_design_impl(mfe_text, d, tag="x"):
+    import contextlib, io
+    from peppercompiler import kinetics as K
+    p = os.path.join(d, "r_%s.mfe" % tag)
+    with open(p, "w") as f: f.write(mfe_text)
+    err = io.StringIO()
+    try:
+        with contextlib.redirect_stdout(err), contextlib.redirect_stderr(err):
+            t = K.read_design(p)
+        return dict(t)
+    except BaseException:
+        return None
